@@ -41,13 +41,26 @@ KINDS_4 = ("INDIRECTION-STYLE refactors that move code without changing what run
            "moving a constant to a module-level name; turning a dict literal lookup into a match / if chain; replacing a "
            "tuple return by a NamedTuple; re-exporting a private helper from another module of the package and importing it "
            "from there")
+KINDS_5 = ("REALISTIC MAINTENANCE COMMITS that do not change behaviour: a micro-optimisation that computes exactly the same "
+           "values in the same floating-point order (hoisting a loop-invariant, reusing a value already computed, avoiding "
+           "a temporary, replacing a Python loop over a short literal list by unrolled statements or the reverse); adapting "
+           "to an equivalent newer spelling of a JAX / Equinox / Python API (jax.tree_util.tree_map vs jax.tree.map style "
+           "aliases available in the installed version, jnp.concatenate vs jnp.concat if available, keyword names of the "
+           "same function, `X | Y` vs Union annotations, f-strings vs format); tightening or adding type annotations and "
+           "docstrings; more informative error messages and extra validation that never triggers for valid input; "
+           "accepting the same inputs through an explicit conversion that is already implied (jnp.asarray of an array); "
+           "replacing magic numbers by named module-level constants; making an implicit default explicit at the call site "
+           "(passing the default value of a keyword argument explicitly); reordering methods / fields declarations where "
+           "order is not observable; replacing `assert` by an explicit raise of the same condition for valid-input paths; "
+           "defensive copies of Python containers (tuple(x), list(x)) where the content is unchanged; simplifying boolean "
+           "expressions by De Morgan / double negation; replacing chained comparisons by `and` of two comparisons")
 base = json.load(open("/root/.vp/BASELINE.json"))
 os.makedirs(root, exist_ok=True)
 open(f"{root}/baseline_stable_pass.txt", "w").write("\n".join(base["stable_pass"]) + "\n")
 open(f"{root}/baseline_always_fail.txt", "w").write("\n".join(base.get("always_fail", [])) + "\n")
 for a, area in areas.items():
     wt = f"{root}/wt_{a}"
-    kinds = KINDS_1 if rnd == 1 else KINDS_4 if rnd >= 4 else KINDS_2
+    kinds = KINDS_1 if rnd == 1 else KINDS_5 if rnd >= 5 else KINDS_4 if rnd == 4 else KINDS_2
     open(f"{root}/prompt_{a}.txt", "w").write(f"""You are helping test a code-analysis tool for false alarms. You work ONLY inside your own scratch git worktree: {wt} (a detached worktree of the Python library flowjax, a JAX/Equinox library of bijections, distributions, normalizing flows and training loops). Do NOT read or write anything under /verif, /root/.vp, /root/.claude, /repo, or any other directory under /tmp.
 
 TASK: produce SIX independent, strictly BEHAVIOUR-PRESERVING refactorings (call them R1..R6) of the library source in this area: {area}. Each must be the kind of commit a maintainer would plausibly make and a reviewer would accept as a pure refactor / clean-up, for example: {kinds}. Make them non-trivial (each should touch at least a few lines of real code, not only comments) and DIFFERENT in kind from each other; spread them over the files of the area. They must NOT change any observable behaviour for any input (values, shapes, errors raised and their types, randomness/key usage, gradients, pytree structure of the models, numerical stability: do not replace a numerically stable formula by a mathematically equivalent unstable one, and do not change the order of floating-point operations).
